@@ -10,7 +10,7 @@ is to be reported as a named obligation.
 
 # Types the builder treats abstractly. What the extraction DROPS from bvh.rs is stated in DESIGN.md §C13:
 # doc comments, #[derive(Debug)], the Debug impl of TreeElement, every other method of BVH, and the bodies of
-# AABB / Bounded (opaque here) and partition_elements_by_centroid (external_body with contract P below).
+# AABB / Bounded (opaque here) and partition_elements_by_centroid_plane (external_body with contract P' below).
 HEADER = """use vstd::prelude::*;
 verus! {
 
@@ -25,17 +25,51 @@ pub struct BVH<T> {
 }
 """
 
-# Contract P of the partition step, taken from the property statement ("building ... terminates for any set,
-# including many with coinciding centres"): both halves non-empty and nothing lost. It is an ASSUMPTION of this
-# unit; the real body is checked against P by the Kani/native twin obligation C13.partition (bounded).
+# The partition step. `partition_elements_by_centroid` (the repair of an empty half with Vec::append / split_off) is
+# extracted verbatim and verified against contract P, taken from the property statement ("building ... terminates for
+# any set, including many with coinciding centres"): both halves non-empty and nothing lost or duplicated. What stays an
+# ASSUMPTION is contract P' of `partition_elements_by_centroid_plane` (f32 mean of the centres + Iterator::partition,
+# outside Verus): every element goes to exactly one side. The real body of the plane step is checked against P' - and
+# the pair against P - by the native twin obligations C13.partition.* (bounded).
 EXTERNAL = """    #[verifier::external_body]
-    fn partition_elements_by_centroid(elements: Vec<T>) -> (r: (Vec<T>, Vec<T>))
-        requires elements@.len() >= 2,
-        ensures r.0@.len() + r.1@.len() == elements@.len(), r.0@.len() >= 1, r.1@.len() >= 1,
+    fn partition_elements_by_centroid_plane(elements: Vec<T>) -> (r: (Vec<T>, Vec<T>))
+        ensures r.0@.len() + r.1@.len() == elements@.len(),
+                r.0@.to_multiset().add(r.1@.to_multiset()) =~= elements@.to_multiset(),
     {
         unimplemented!()
     }
 """
+
+PARTITION_SIG = r"^    fn partition_elements_by_centroid\(elements: Vec<T>\) -> \(Vec<T>, Vec<T>\) \{"
+PARTITION_ENSURES = [
+    ("C13.partition.nothing_lost", "r.0@.len() + r.1@.len() == elements@.len()"),
+    ("C13.partition.both_nonempty", "elements@.len() >= 2 ==> r.0@.len() >= 1 && r.1@.len() >= 1"),
+    ("C13.partition.same_elements", "r.0@.to_multiset().add(r.1@.to_multiset()) =~= elements@.to_multiset()"),
+]
+# (anchor regex - exactly one line of the function -, 'before'|'after', text). Both anchors are the first and the last
+# statement of the function; the hint speaks about the two halves only (it covers a repair step that keeps the halves or
+# re-splits their concatenation, in either order).
+PARTITION_INSERTS = [
+    (r"^\s*let \(mut left, mut right\) = Self::partition_elements_by_centroid_plane\(elements\);$", "after",
+     "let ghost (l0, r0) = (left@, right@);"),
+    (r"^\s*\(left, right\)$", "before",
+     """proof {
+    vstd::seq_lib::lemma_multiset_commutative(left@, right@);
+    vstd::seq_lib::lemma_multiset_commutative(right@, left@);
+    vstd::seq_lib::lemma_multiset_commutative(l0, r0);
+    vstd::seq_lib::lemma_multiset_commutative(r0, l0);
+    // case splits only - nothing is asserted, so nothing is assumed for the clauses that follow
+    if left@ =~= l0 && right@ =~= r0 {}
+    if left@ + right@ =~= l0 + r0 {}
+    if left@ + right@ =~= r0 + l0 {}
+    if right@ + left@ =~= l0 + r0 {}
+    if right@ + left@ =~= r0 + l0 {}
+}"""),
+]
+
+# a clause whose proof needs the hint above: when only it fails, nothing is known (T has no Clone bound: an element can
+# be dropped - which C13.partition.nothing_lost sees - but not duplicated) - reported as undecided, never as a violation
+PARTITION_SOFT = ["C13.partition.same_elements"]
 
 # requires / ensures of generate_node_list; (label, clause) -- the label names the obligation
 CONTRACT_REQUIRES = [
